@@ -281,12 +281,15 @@ class Interp:
 
     # ---- variables -----------------------------------------------------------
     def lookup(self, name):
-        if name in self.macros:
-            return self.macros[name]
+        # A ['var', name] node is a variable or parameter where it was
+        # compiled (macros are written as ['macro', name]); a macro of the
+        # same name that is defined later in the text does not change that.
         if self.frames and name in self.frames[-1].params:
             return self.frames[-1].params[name]
         if name in self.globals:
             return self.globals[name]
+        if name in self.macros:
+            return self.macros[name]
         raise RefBug('read of unassigned variable {}'.format(name))
 
     def assign(self, name, value):
@@ -309,7 +312,9 @@ class Interp:
             text = e[1]
             return float(text) if '.' in text else int(text)
         if tag == 'str':
-            return e[1]
+            # the node holds the source text between the quotes; \" is the
+            # lexer's (test-pinned) way of writing a quote inside a string
+            return e[1].replace('\\"', '"')
         if tag in ('var', 'macro'):
             return self.lookup(e[1])
         if tag == 'reg':
